@@ -45,7 +45,18 @@ ASSUMPTIONS = [
     "float formatting/parsing of the concrete numeric values is numpy/libc code (trusted)",
 ]
 WITNESS_TARGETS = ["symbolic-item-is-widest", "symbolic-item-is-narrowest", "version-1.2-well-order", "empty-value-with-unit-becomes-0", "blank-mnemonic", "case-mapped-mnemonic"]
-EXCLUSIONS = {}
+def _dup_steer_sym(i):
+    if i["section"] != "W" or not isinstance(i["m"], (str, SymStr)):
+        return False
+    m = SymStr.lift(i["m"])
+    return z.Or([m.eq_expr(n) for n in ("STRT", "STOP", "STEP", "NULL")])
+
+
+def _dup_steer_conc(i):
+    return i["section"] == "W" and i["m"] in ("STRT", "STOP", "STEP", "NULL")
+
+
+EXCLUSIONS = {"well_item_duplicating_STRT_STOP_STEP_NULL": (_dup_steer_sym, _dup_steer_conc)}
 NUMERIC = [("NI", "u", 7, "an int"), ("NF", "", 2.5, "a float"), ("NZ", "m", 0.0, "zero"), ("NE", "k", "", "empty with unit")]
 
 
@@ -56,6 +67,11 @@ def tasks(tier):
         for comp in b["companions"]:
             for shp in W.shapes(b["field_len_cap"]):
                 out.append({"name": "%s/%s/%s" % (sec, comp, "".join(map(str, shp))), "params": {"section": sec, "companion": comp, "shape": list(shp)}})
+    # four-letter mnemonics in ~Well: long enough to spell STRT/STOP/STEP/NULL in any case mix, whose
+    # value/description order depends on the version
+    for comp in b["companions"]:
+        for shp in ([(4, 0, 1, 1), (4, 1, 1, 1)] if tier == "quick" else [(4, a, b_, c) for a in (0, 1) for b_ in (0, 1, 2) for c in (0, 1, 2)]):
+            out.append({"name": "W/%s/%s" % (comp, "".join(map(str, shp))), "params": {"section": "W", "companion": comp, "shape": list(shp), "letters_only": True}})
     return out
 
 
@@ -66,6 +82,9 @@ def harness(ns, params):
         A = core.assume
         core.OPTS["concretize"] = True
         m, u, v, d = W.conformant_item("s", shape, section)
+        if params.get("letters_only"):
+            A(allc(m, lambda c: z.Or(z.in_range_c(c, 65, 90), z.in_range_c(c, 97, 122))))
+            core.witness("mixed-case-spelling-of-an-order-table-mnemonic", z.And(z.Or([SymStr.lift(m.upper()).eq_expr(n) for n in ("STRT", "STOP", "STEP", "NULL")]), z.Not(m.eq_expr(m.upper())), z.Not(m.eq_expr(m.lower()))))
         if shape[0] == 0:
             for x in (u, v, d):
                 if isinstance(x, SymStr):
